@@ -106,6 +106,18 @@ def main(prop, tier, seed, args):
     checks_total = 0
     nontrivial = set()
     only = re.compile(args.only) if args.only else None
+    extra_box = {}
+    extra_thread = None
+    if plan.extra:
+        # the second engine (MIR->SMT) runs concurrently with the Kani groups (it is single-threaded)
+        import threading
+        def _run_extra():
+            try:
+                extra_box["res"] = plan.extra(tier, seed)
+            except Exception as e:   # an engine crash is inconclusive, never success
+                extra_box["res"] = {"inconclusive": ["second engine crashed: %r" % (e,)]}
+        extra_thread = threading.Thread(target=_run_extra)
+        extra_thread.start()
     for gi, g in enumerate(plan.groups):
         cases = [c for c in g.cases if (only is None or only.search(c.name))]
         if not cases:
@@ -156,7 +168,8 @@ def main(prop, tier, seed, args):
             shutil.rmtree(work, ignore_errors=True)
     extra_cov = {}
     if plan.extra:
-        ex = plan.extra(tier, seed)
+        extra_thread.join()
+        ex = extra_box.get("res", {"inconclusive": ["second engine produced no result"]})
         extra_cov = ex.get("coverage", {})
         queries += ex.get("queries", 0)
         discharged += ex.get("discharged", 0)
@@ -218,7 +231,9 @@ def main(prop, tier, seed, args):
     print("[%s/%s] queries=%d discharged=%d violations=%d inconclusive=%d known=%d wall=%.0fs solver=%.0fs" % (
         prop, tier, queries, discharged, len(confirmed), len(inconclusive), len(known_hit), wall, solver_time))
     if confirmed:
-        for info in confirmed:
+        if len(confirmed) > 6:
+            print("(%d confirmed violations; the first 6 are listed, all are in the evidence/replay files)" % len(confirmed))
+        for info in confirmed[:6]:
             print("VIOLATION property=%s replay=%s" % (prop, info["path"]))
             print("  " + info.get("summary", ""))
             if info.get("also"):
